@@ -46,6 +46,16 @@ theorem backward_bad_param_rejected (E : Engine α) (tensors inputs : List Key)
     · simp only [hc, if_false]
       exact go_bad_param E tensors inputs A _ retain h bad hb hbad
 
+/-- in particular a parameter frozen (`requires_grad_(False)`) after the forward pass — still in the graph, so
+    also found by the default parameter discovery — is rejected and nothing changes -/
+theorem backward_frozen_param_rejected (E : Engine α) (tensors inputs frozen : List Key)
+    (A : Mat α → Except Err (Vec α)) (chunk : Option Int) (retain : Bool) (h : Grads α)
+    (bad : Key) (hb : bad ∈ inputs) (hf : bad ∈ frozen) :
+    (backward (E.freeze frozen) tensors inputs A chunk retain h).err ≠ none ∧
+    (backward (E.freeze frozen) tensors inputs A chunk retain h).grads = h := by
+  apply backward_bad_param_rejected (E.freeze frozen) tensors inputs A chunk retain h bad hb
+  simp [Engine.freeze, hf]
+
 /-- the argument faults of `mtl_backward` named by the property -/
 def MtlArgFault (E : Engine α) (ndim : Key → Nat) (losses features : List Key)
     (tps : List (List Key)) (shared : List Key) (chunk : Option Int) : Prop :=
@@ -143,5 +153,18 @@ theorem old_accumulate_partial_write :
     let r := accumulateOld E [(0, [5]), (1, [7])] (fun _ => none)
     r.2 = some Err.value ∧ r.1 0 = some [5] := by
   decide
+
+/-- `mtl_backward` with a parameter (shared or task-specific, explicit or discovered) frozen after the forward
+    pass: `ValueError` before any `.grad` is modified and before the graph is traversed -/
+theorem mtl_frozen_param_rejected (E : Engine α) (ndim : Key → Nat) (losses features : List Key)
+    (tps : List (List Key)) (shared frozen : List Key) (A : Mat α → Except Err (Vec α))
+    (chunk : Option Int) (retain : Bool) (h : Grads α)
+    (bad : Key) (hb : bad ∈ shared ++ tps.flatten) (hf : bad ∈ frozen) :
+    (mtlBackward (E.freeze frozen) ndim losses features tps shared A chunk retain h).err = some Err.value ∧
+    (mtlBackward (E.freeze frozen) ndim losses features tps shared A chunk retain h).grads = h ∧
+    (mtlBackward (E.freeze frozen) ndim losses features tps shared A chunk retain h).sweeps = [] := by
+  apply mtl_rejected_changes_nothing
+  right; right; right; right; right; right; right; right; right
+  exact ⟨bad, hb, by simp [Engine.freeze, hf]⟩
 
 end Tjd.Props.C20
